@@ -61,6 +61,7 @@ type Options struct {
 	ExtSubSecDigits bool // sub-second strings of 1,2,4..6 digits (main: 3 digits)
 	ExtModelFirst   bool // Model value placed before Make value
 	NoGPS           bool
+	Split           bool // also encode IFD0 / Exif / GPS as three separate TIFF blocks (CR3 CMT1/CMT2/CMT4)
 	Unbuffered      bool // file will be read through the unbuffered path: directories <= 85 entries, values <= 1024
 	PlainStrings    bool
 }
@@ -458,6 +459,7 @@ type ExifFile struct {
 	// feature counters for the non-trivial rule
 	Supported, OutOfLineDirs, EmbShort, EmbASCII, OutRational, Foreign int
 	FirstIFD                                                           int
+	Split                                                              [4]*Encoded // CMT1..CMT4 style encodings (Options.Split)
 }
 
 func sortEntries(d *Dir) {
@@ -784,6 +786,22 @@ func GenExif(rt *rapid.T, o Options) *ExifFile {
 			sortEntries(dd.d)
 			f.Foreign++
 			f.Enc = Encode(ifd0, first, pick, pad, trailing)
+		}
+	}
+	if o.Split {
+		// the same record as cameras write CR3 metadata: one TIFF block per directory
+		root0 := &Dir{Name: "IFD0", Next: ifd0.Next}
+		for _, e := range ifd0.Entries {
+			if e.Child == nil {
+				root0.Entries = append(root0.Entries, e)
+			}
+		}
+		f.Split[0] = Encode(root0, first, pick, pad, trailing)
+		if exif != nil {
+			f.Split[1] = Encode(exif, first, pick, pad, trailing)
+		}
+		if gps != nil {
+			f.Split[3] = Encode(gps, first, pick, pad, trailing)
 		}
 	}
 	// class counters
